@@ -464,6 +464,8 @@ impl ParsedValue {
 
         // a `null` target takes the value of the first locale of the `inherits` chain that defines it,
         // the value of the default locale when the chain ends or loops.
+        // the locale the reference is written in: its arguments belong to that locale, and so does the text being built.
+        let ref_locale = top_locale;
         let mut top_locale = top_locale;
         let mut visited = Vec::new();
         let value = loop {
@@ -508,16 +510,10 @@ impl ParsedValue {
 
         // possibility that args must resolve too
         for arg in args.values() {
-            arg.resolve_foreign_key(
-                values,
-                top_locale,
-                default_locale,
-                extensions,
-                foreign_key_path,
-            )?;
+            arg.resolve_foreign_key(values, ref_locale, default_locale, extensions, key_path)?;
         }
 
-        let value = value.populate(args, foreign_key_path, top_locale, key_path)?;
+        let value = value.populate(args, foreign_key_path, ref_locale, key_path)?;
 
         let _ = std::mem::replace(foreign_key, ForeignKey::Set(Box::new(value)));
 
